@@ -47,6 +47,7 @@ type sigEvent struct {
 	H       int      `json:"h"`
 	N       int      `json:"n"`
 	Outcome []string `json:"outcome"`
+	IDs     []int    `json:"ids"` // add: the services passed to Add, as they were at that moment
 	Sig     string   `json:"sig"`
 	I       int      `json:"i"`
 	Status  int      `json:"status"`
@@ -98,6 +99,12 @@ func (s *fakeSvc) Shutdown(_ context.Context) error {
 	if k < len(w.atCall) {
 		w.trySendLocked(w.atCall[k])
 		w.atCall[k] = nil
+	}
+	if s.i < 1 {
+		// The decoy the caller wrote into its buffer AFTER Add had returned:
+		// never registered, must never be called.
+		w.mu.Unlock()
+		return nil
 	}
 	oc := w.outcome[s.i-1]
 	w.mu.Unlock()
@@ -205,7 +212,65 @@ func pause(spin int) {
 	}
 }
 
+// addOp is one Add call of a registration plan (SignalHandler.tla, AddStep).
+type addOp struct {
+	Op    string `json:"op"`    // add, empty
+	IDs   []int  `json:"ids"`   // services passed, 1-based
+	Buf   string `json:"buf"`   // add: fresh | reuse (the caller's buffer, from index 0); empty: none | nilslice
+	After string `json:"after"` // what the caller does to the passed slice after Add returned: keep | zero | decoy
+}
+
+// register executes a plan on h the way a caller would.
+func register(h *service.SignalHandler, w *sigWorld, n int, plan []addOp) {
+	svc := make([]service.Interface, n+1)
+	for i := 1; i <= n; i++ {
+		svc[i] = &fakeSvc{w: w, i: i}
+	}
+	decoy := &fakeSvc{w: w, i: -1}
+	buf := make([]service.Interface, 0, n+2) // reused, with spare capacity
+	for _, o := range plan {
+		if o.Op == "empty" {
+			if o.Buf == "nilslice" {
+				var none []service.Interface
+				h.Add(none...)
+			} else {
+				h.Add()
+			}
+			w.mu.Lock()
+			w.log = append(w.log, sigEvent{Ev: "add", IDs: []int{}, Outcome: []string{}})
+			w.mu.Unlock()
+			continue
+		}
+		var passed []service.Interface
+		if o.Buf == "reuse" {
+			buf = buf[:0]
+			for _, id := range o.IDs {
+				buf = append(buf, svc[id])
+			}
+			passed = buf
+		} else {
+			passed = make([]service.Interface, 0, len(o.IDs))
+			for _, id := range o.IDs {
+				passed = append(passed, svc[id])
+			}
+		}
+		w.mu.Lock()
+		w.log = append(w.log, sigEvent{Ev: "add", IDs: append([]int{}, o.IDs...), Outcome: []string{}})
+		w.mu.Unlock()
+		h.Add(passed...)
+		for i := range passed {
+			switch o.After {
+			case "zero":
+				passed[i] = nil
+			case "decoy":
+				passed[i] = decoy
+			}
+		}
+	}
+}
+
 type sigRun struct {
+	Adds    []addOp // registration plan; nil = one Add per service with a fresh slice
 	N       int
 	Outcome []string
 	Pre     []string // signals before the shutdown signal (all non-shutdown)
@@ -237,10 +302,15 @@ func runSignal(r sigRun) (res sigResult) {
 		return res
 	}
 	w.c = nt.c
-	for i := 1; i <= r.N; i++ {
-		h.Add(&fakeSvc{w: w, i: i})
+	w.log = append(w.log, sigEvent{Ev: "new", N: r.N, Outcome: append([]string{}, r.Outcome...), IDs: []int{}})
+	plan := r.Adds
+	if plan == nil {
+		for i := 1; i <= r.N; i++ {
+			plan = append(plan, addOp{Op: "add", IDs: []int{i}, Buf: "fresh", After: "keep"})
+		}
 	}
-	w.log = append(w.log, sigEvent{Ev: "new", N: r.N, Outcome: append([]string{}, r.Outcome...)})
+	register(h, w, r.N, plan)
+	w.log = append(w.log, sigEvent{Ev: "handle", Outcome: []string{}, IDs: []int{}})
 
 	handleDone := make(chan struct{})
 	var status osutil.ExitCode
@@ -341,6 +411,7 @@ func (f *fakeNotifier) cRead() chan<- os.Signal { return f.c }
 type sigVec struct {
 	N       int      `json:"n"`
 	Outcome []string `json:"outcome"`
+	Adds    []addOp  `json:"adds"`
 	Script  []string `json:"script"`
 	Events  [][]any  `json:"events"`
 	Order   []int    `json:"order"`
@@ -351,7 +422,7 @@ type sigVec struct {
 // script: signals before / the shutdown signal / trailing signals with the
 // point of the shutdown at which they arrive.
 func planOf(v sigVec, grace time.Duration) (r sigRun, err error) {
-	r = sigRun{N: v.N, Outcome: v.Outcome, Grace: grace, AtCall: make([][]string, v.N+1)}
+	r = sigRun{N: v.N, Outcome: v.Outcome, Adds: v.Adds, Grace: grace, AtCall: make([][]string, v.N+1)}
 	ncalls, seenShut, returned := 0, false, false
 	for _, e := range v.Events {
 		kind, _ := e[0].(string)
@@ -386,9 +457,45 @@ func planOf(v sigVec, grace time.Duration) (r sigRun, err error) {
 	return r, nil
 }
 
+// planKey describes a registration plan unless it is the plain one (one Add
+// per service, fresh slice, untouched afterwards).
+func planKey(plan []addOp) string {
+	plain := true
+	var parts []string
+	for _, o := range plan {
+		if o.Op == "empty" {
+			plain = false
+			if o.Buf == "nilslice" {
+				parts = append(parts, "Add(nil...)")
+			} else {
+				parts = append(parts, "Add()")
+			}
+			continue
+		}
+		if len(o.IDs) != 1 || o.Buf != "fresh" || o.After != "keep" {
+			plain = false
+		}
+		p := fmt.Sprintf("Add(%v", o.IDs)
+		if o.Buf == "reuse" {
+			p += " via reused buffer"
+		}
+		if o.After != "keep" {
+			p += ", then " + o.After
+		}
+		parts = append(parts, p+")")
+	}
+	if plain {
+		return ""
+	}
+	return strings.Join(parts, ";")
+}
+
 func sigKey(v sigVec, r sigRun) string {
 	var b strings.Builder
 	fmt.Fprintf(&b, "SignalHandler services=[%s] signals=[%s]", strings.Join(v.Outcome, ","), strings.Join(v.Script, ","))
+	if s := planKey(v.Adds); s != "" {
+		b.WriteString(" registration=" + s)
+	}
 	for k, s := range r.AtCall {
 		if len(s) > 0 {
 			fmt.Fprintf(&b, " %s@call%d", strings.Join(s, "+"), k)
@@ -426,6 +533,11 @@ func judgeSignal(v sigVec, got sigResult) string {
 		return "Handle panicked: " + got.Returned
 	case got.Returned == "hang":
 		return "Handle did not return after the shutdown signal"
+	}
+	for _, i := range got.Order {
+		if i < 1 || i > v.N {
+			return fmt.Sprintf("a service that was never registered was shut down (what the caller wrote into its buffer after Add had returned); call order %v", got.Order)
+		}
 	}
 	for i := 1; i <= v.N; i++ {
 		if cnt[i] != 1 {
@@ -577,6 +689,23 @@ func recordSignal(args []string) error {
 		for k := rng.IntN(7); k > 0; k-- {
 			r.Pre = append(r.Pre, others[rng.IntN(len(others))])
 		}
+		// Registration: 1..n split into random groups, each passed through a
+		// fresh slice or the caller's reused buffer and kept / zeroed /
+		// overwritten afterwards, empty Add calls sprinkled in.
+		r.Adds = []addOp{}
+		for next := 1; next <= n; {
+			if rng.IntN(4) == 0 {
+				r.Adds = append(r.Adds, addOp{Op: "empty", Buf: []string{"none", "nilslice"}[rng.IntN(2)], After: "keep"})
+			}
+			sz := 1 + rng.IntN(min(4, n-next+1))
+			o := addOp{Op: "add", Buf: []string{"fresh", "reuse", "reuse"}[rng.IntN(3)],
+				After: []string{"keep", "zero", "decoy"}[rng.IntN(3)]}
+			for k := 0; k < sz; k++ {
+				o.IDs = append(o.IDs, next+k)
+			}
+			next += sz
+			r.Adds = append(r.Adds, o)
+		}
 		for k := rng.IntN(4); k > 0; k-- {
 			nm := all[rng.IntN(len(all))]
 			if n > 0 && rng.IntN(3) > 0 {
@@ -616,6 +745,12 @@ func recordSignal(args []string) error {
 		}
 		for _, e := range o.Log {
 			e.H = h
+			if e.IDs == nil {
+				e.IDs = []int{}
+			}
+			if e.Outcome == nil {
+				e.Outcome = []string{}
+			}
 			tr.Emit(e)
 		}
 	}
